@@ -435,20 +435,21 @@ func propC02(c *Ctx) {
 			}
 		}
 		n := 0
+		dreg := NewRegion(del) // the statements may be issued by a helper only Delete calls (rewind)
 		for i := range sites {
 			s := &sites[i]
-			if s.Fn == del {
+			if dreg.Has(s.Fn) {
 				n++
-				c.Check("R2.4", s.key()+"/on-param", instrPos(s.Call), pg != nil && stripConv(s.Recv) == pg, "cursor delete executes on Delete's wpg.Conn parameter")
+				c.Check("R2.4", s.key()+"/on-param", instrPos(s.Call), pg != nil && stripConv(dreg.Resolve(stripConv(s.Recv))) == ssa.Value(pg), "cursor delete executes on Delete's wpg.Conn parameter")
 			}
 		}
-		for _, ci := range callsIn(del) {
+		for _, ci := range dreg.Calls() {
 			cc := ci.Common()
 			if cc.IsInvoke() && cc.Method.Name() == "Delete" {
 				n++
 				okArg := false
 				for _, a := range cc.Args {
-					if stripConv(a) == pg {
+					if stripConv(dreg.Resolve(stripConv(a))) == ssa.Value(pg) {
 						okArg = true
 					}
 				}
